@@ -4,6 +4,7 @@
    All statements hold for every vertex list, every connectivity list, every [round32] and every scalar type. *)
 From Coq Require Import List Arith ZArith.
 From LaPyV Require Import Base.ListAux Model.TetMesh Model.TriaAdj Model.IOText Proofs.IOTextP.
+From LaPyV Require Model.IOFs Proofs.IOFsP.
 Import ListNotations.
 
 (* write_vtk then read_vtk: identical connectivity (values, order, winding), coordinates rounded to single precision *)
@@ -51,3 +52,24 @@ Proof.
   split; [intros; apply vtk_tria_file_rejected_by_tet_reader; assumption|intros; apply vtk_file_rejected_by_off_reader].
 Qed.
 Print Assumptions C14_wrong_kind_rejected.
+
+(* FreeSurfer triangle surfaces (field-level model of the layout nibabel writes and of lapy/_read_geometry.py): what write_fssurf
+   writes, read_fssurf reads back -- identical connectivity, coordinates as single precision, header information preserved
+   (floats as formatted, head [20] or [2,0,20]); every prefix that ends before the end of the element section is rejected;
+   a file that does not start with the triangle magic number is rejected *)
+Theorem C14_freesurfer_round_trip : forall (K : Type) (r32 fmt10 : K -> K) stamp (v : list (K * K * K)) (t : list tri) info,
+  match info with Some i => IOFsP.valid_head i | None => True end ->
+  IOFs.read_fs (IOFs.write_fs r32 fmt10 stamp v t info)
+  = IOFs.FsOk (map (IOFsP.r3 r32) v, t, option_map (IOFsP.info_back fmt10) info, stamp).
+Proof. exact @IOFsP.fs_round_trip. Qed.
+Print Assumptions C14_freesurfer_round_trip.
+Theorem C14_freesurfer_truncation_rejected : forall (K : Type) (r32 fmt10 : K -> K) stamp (v : list (K * K * K)) (t : list tri) info n,
+  IOFs.write_fs r32 fmt10 stamp v t info
+    = IOFsP.fs_body r32 stamp v t ++ match info with Some i => IOFs.write_info fmt10 i | None => [] end /\
+  (n < length (IOFsP.fs_body r32 stamp v t) -> exists e, IOFs.read_fs (firstn n (IOFsP.fs_body r32 stamp v t)) = IOFs.FsErr e).
+Proof. intros. split; [apply IOFsP.write_fs_body|apply IOFsP.fs_truncated]. Qed.
+Print Assumptions C14_freesurfer_truncation_rejected.
+Theorem C14_freesurfer_wrong_magic_rejected : forall (K : Type) a b c (rest : IOFs.fsfile (K:=K)),
+  IOFs.is_tria_magic a b c = false -> IOFs.read_fs (IOFs.FMagic a b c :: rest) = IOFs.FsErr IOFs.FsValueError.
+Proof. exact @IOFsP.fs_wrong_magic. Qed.
+Print Assumptions C14_freesurfer_wrong_magic_rejected.
